@@ -366,6 +366,33 @@ def cond_of(r: dict, cls: dict, m: int, name: str) -> float:
     return base
 
 
+def config_col(r: dict, s: dict, vname: str):
+    """ConFIG on the instances on which the MODEL computes it exactly (spec SymAgg!SymConFIG, AggSymmetry!CfgOn):
+    independent columns (tall matrices: the rows are dependent, the pseudo-inverse of the row-normalised matrix is
+    the well-conditioned (U^T U)^-1 U^T), one common squared norm rho of the non-zero rows, matrix presented with
+    the columns of the instance.  Returns None outside that regime, else (data, cond):
+      data = model record [y, yy, d, deg, sg]:  A(diag(c) J) = (sum_i c_i d_i) y / yy  (rational);
+      cond = 4 m^2 * m * sqrt(trG) * |w|_1 * trG^n / det(J^T J):  the least-squares direction x = (U^T U)^-1 U^T w
+             has relative sensitivity <= kappa(U)^2 (1 + |U| |w| / |U^T w|) (Wedin; the residual is not small),
+             kappa(U)^2 = cond(J^T J) <= trG^n / det(J^T J) (integer determinant >= 1),  |U| <= sqrt(m),
+             |U^T w| = |J^T w| / sqrt(rho) >= 1 / sqrt(trG) (J^T w is a non-zero integer vector; zero: degenerate, skipped)."""
+    if not r["name"].startswith("ConFIG") or not s.get("cfg", {}).get("on") or presented(s):
+        return None
+    cls, m, n = s["cls"], s["m"], s["n"]
+    data = s["cfg"]["ones" if vname == "ConFIG" else "pref"]
+    w1 = float(m if vname == "ConFIG" else max(1, sum(abs(p) for p in s["P"])))
+    cond = 4.0 * m * m * m * math.sqrt(max(1, cls["trG"])) * w1 * float(max(1, cls["trG"])) ** n / max(1, cls["detCol"])
+    if cls["rankUnamb"]:                      # square instances belong to both regimes: the larger constant
+        cond = max(cond, cond_of(r, cls, m, r["name"]))
+    return data, cond
+
+
+def config_exact(data: dict, c: list, e: int, den: int) -> torch.Tensor:
+    """(sum_i c_i d_i) y / <y, y> * 2^e / den  from the model's integers (evaluated in rationals, rounded once)."""
+    length = Fraction(sum(ci * di for ci, di in zip(c, data["d"])), data["yy"] * den)
+    return torch.tensor([math.ldexp(float(length * yj), e) for yj in data["y"]], dtype=F64)
+
+
 def ref_of(cls: dict, e: int, w1: float, cmax: float = 1.0) -> float:
     return math.ldexp(math.sqrt(max(1, cls["trG"])), e) * cmax * max(1.0, w1)
 
